@@ -101,6 +101,66 @@ pub fn add_exponents(existing: &str) -> String {
     serde_json::to_string_pretty(&v).unwrap()
 }
 
+/// Append honestly shaped keys whose PRIMES have particular low / high bytes (a prime that is 1
+/// modulo 256, 255 modulo 256, or starts with 0xff): one key in 64 that an honest generator
+/// produces has such a prime; the pool holds some on purpose.
+pub fn add_prime_shapes(existing: &str) -> String {
+    use num_bigint_dig::prime::probably_prime;
+    use rsa::BigUint;
+    use rsa::pkcs1::EncodeRsaPrivateKey;
+    use rsa::traits::PublicKeyParts;
+    let mut v: serde_json::Value = serde_json::from_str(existing).unwrap();
+    let prime = |bits: usize, low: Option<u8>, high_ff: bool, tag: u64| -> BigUint {
+        let mut bytes = crate::rng::det_bytes(0x5eed_0000 + bits as u64, tag, bits / 8);
+        let mut os = vec![0u8; bits / 8];
+        let _ = unsafe { libc::getrandom(os.as_mut_ptr().cast(), os.len(), 0) };
+        for (a, b) in bytes.iter_mut().zip(os) {
+            *a ^= b;
+        }
+        bytes[0] |= 0xc0;
+        if high_ff {
+            bytes[0] = 0xff;
+        }
+        let n = bytes.len();
+        bytes[n - 1] = low.unwrap_or(bytes[n - 1] | 1);
+        let mut c = BigUint::from_bytes_be(&bytes);
+        let step = BigUint::from(if low.is_some() { 256u32 } else { 2 });
+        let e = BigUint::from(65537u32);
+        let one = BigUint::from(1u8);
+        loop {
+            if probably_prime(&c, 20) && gcd(&(&c - &one), &e) == one {
+                return c;
+            }
+            c += &step;
+        }
+    };
+    for (name, bits) in [("rsa2048", 2048usize), ("rsa4096", 4096)] {
+        for (i, (pl, ql, ph)) in [(Some(0x01u8), None, false), (None, Some(0x01u8), false), (Some(0xff), Some(0x01), false), (Some(0x01), Some(0x01), true)].into_iter().enumerate() {
+            let k = loop {
+                let p = prime(bits / 2, pl, ph, i as u64 * 2);
+                let q = prime(bits / 2, ql, false, i as u64 * 2 + 1);
+                if p == q {
+                    continue;
+                }
+                let n = &p * &q;
+                if n.bits() != bits {
+                    continue;
+                }
+                let e = BigUint::from(65537u32);
+                let one = BigUint::from(1u8);
+                let Some(d) = mod_inverse(&e, &lcm(&(&p - &one), &(&q - &one))) else { continue };
+                let Ok(k) = rsa::RsaPrivateKey::from_components(n, e, d, vec![p, q]) else { continue };
+                if k.validate().is_ok() {
+                    break k;
+                }
+            };
+            assert_eq!(k.n().bits(), bits);
+            v[name].as_array_mut().unwrap().push(serde_json::Value::String(hex::encode(k.to_pkcs1_der().unwrap().as_bytes())));
+        }
+    }
+    serde_json::to_string_pretty(&v).unwrap()
+}
+
 // ---------------------------------------------------------------------------
 // structurally odd RSA private keys: well-formed PKCS#1 DER whose numbers are not what an
 // honest generator produces.  Whether a decoder accepts them is its business; what it must not
